@@ -4,14 +4,14 @@ import SignaloModel.Proofs.TableChecks
 /-!
 # C07 — Daubechies analysis followed by synthesis reconstructs the signal
 
-Property theorems for C07 (statements are printed by `#check`, axioms by `#check @Fir.cascade_kernel
-#check @Fir.convL_residual_bound
-#check @Tables.db_reconstructs
-#print axioms`;
-`bin/check C07` re-elaborates this file on every run and audits the axiom lists).
+The property theorems for C07: `#check` prints each statement, `#print axioms` its axioms;
+`bin/check C07` re-elaborates this file on every run and audits the axiom lists.
 -/
 open SignaloModel
 
+#check @Fir.cascade_kernel
+#check @Fir.convL_residual_bound
+#check @Tables.db_reconstructs
 #check @Fir.convL_polyMul
 #check @Fir.convL_addL
 #check @Fir.convL_bound
@@ -21,6 +21,9 @@ open SignaloModel
 #check @Tables.db_low_gain
 #check @Tables.db_lengths
 
+#print axioms Fir.cascade_kernel
+#print axioms Fir.convL_residual_bound
+#print axioms Tables.db_reconstructs
 #print axioms Fir.convL_polyMul
 #print axioms Fir.convL_addL
 #print axioms Fir.convL_bound
@@ -29,6 +32,3 @@ open SignaloModel
 #print axioms Tables.db_high_gain
 #print axioms Tables.db_low_gain
 #print axioms Tables.db_lengths
-#print axioms Fir.cascade_kernel
-#print axioms Fir.convL_residual_bound
-#print axioms Tables.db_reconstructs
